@@ -352,6 +352,9 @@ type allowerContext struct {
 	powerLevels        PowerLevelContent // The m.room.power_levels content for the room.
 	joinRule           JoinRuleContent   // The m.room.join_rules content for the room.
 
+	// Set if the provider has a m.room.power_levels event that could not be loaded.
+	powerLevelsErr error
+
 	roomID spec.RoomID
 }
 
@@ -394,6 +397,7 @@ func (a *allowerContext) update(provider AuthEventProvider) {
 		a.createEvent, a.powerLevelsEvent, a.joinRuleEvent = nil, nil, nil
 		a.resetCreate()
 		a.powerLevels = PowerLevelContent{}
+		a.powerLevelsErr = nil
 		a.joinRule = JoinRuleContent{}
 	}
 	if e, _ := provider.Create(); a.createEvent == nil || a.createEvent != e {
@@ -418,9 +422,14 @@ func (a *allowerContext) update(provider AuthEventProvider) {
 		if p, err := NewPowerLevelContentFromAuthEvents(provider, creator); err == nil {
 			a.powerLevelsEvent = e
 			a.powerLevels = p
+			a.powerLevelsErr = nil
 		} else {
+			// The defaults are for a room without a power level event. A power level
+			// event that is there but can't be read must not authorise anything: an
+			// empty PowerLevelContent would require level 0 for everything.
 			a.powerLevelsEvent = nil
 			a.powerLevels = PowerLevelContent{}
+			a.powerLevelsErr = err
 		}
 	}
 	if e, _ := provider.JoinRules(); a.joinRuleEvent == nil || a.joinRuleEvent != e {
@@ -452,6 +461,13 @@ func (a *allowerContext) allowed(event PDU) error {
 		return a.createEventAllowed(event)
 	case spec.MRoomAliases:
 		return a.aliasEventAllowed(event)
+	}
+	// Every other event is checked against the power levels of the room
+	// (which is why StateNeededForAuth names them for those events).
+	if a.powerLevelsErr != nil {
+		return a.powerLevelsErr
+	}
+	switch event.Type() {
 	case spec.MRoomMember:
 		return a.memberEventAllowed(event)
 	case spec.MRoomPowerLevels:
